@@ -39,6 +39,7 @@ type callable struct {
 	nondet   bool
 	differs  bool
 	calls    int
+	nondetN  int // calls whose outcome differed between two runs of the current code
 }
 
 type typePair struct {
@@ -1089,8 +1090,13 @@ func runSeq(seed, seq int64, maxSteps int) (*difference, bool) {
 		}
 		if ok, _, _, _ := same(outs[1], outs[2]); !ok {
 			if c != nil {
-				c.nondet = true
-				rebuildActive()
+				// not a function of the inputs on THIS call (NewDateTime(0) reads the clock, NewDateTime(t) does not):
+				// the call is not compared; the callable is given up only when most of its calls are like that
+				c.nondetN++
+				if c.nondetN >= 8 && c.nondetN*2 > c.calls {
+					c.nondet = true
+					rebuildActive()
+				}
 			}
 			return nil, true
 		}
